@@ -13,7 +13,7 @@ RULE = ('Hypothesis RuleBasedStateMachine over an agent process that links /repo
         'WASI imports with their witx signatures: rules path_open (create/excl/trunc/directory/append x read/write rights, '
         'existing/missing/symlinked targets), fd_write / fd_pwrite / fd_read / fd_pread with 0-6 iovecs (zero-length segments), '
         'offsets from {0..4096, 2^31-1, 2^31, 2^32-1, 2^32, 2^32+5, 2^33}, fd_seek with every whence value in both ABI encodings '
-        'and negative/huge offsets, fd_tell, fd_filestat_get in both layouts, fd_close. Oracle (differential): every operation '
+        'and negative/huge offsets, fd_tell, fd_filestat_get in both layouts, fd_fdstat_get on live descriptors (type, append flag, exact 24-byte record), fd_close; writes under a soft file-size limit placed around the current size (short write / EFBIG); descriptors on host-created FIFOs opened read+write (ESPIPE from every seeking / positional call, bytes through the pipe, fill modelled per FIFO). Oracle (differential): every operation '
         'is also executed as the corresponding POSIX call (os.open/readv/writev/preadv/pwritev/lseek/fstat) on a mirror tree that '
         'started byte-identical; compared after every step: errno (host errno mapped by the WASI witx table), byte counts and '
         '64-bit offsets stored in guest memory, bytes read, untouched canaries around every result, file position, file sizes; '
